@@ -39,6 +39,9 @@ mod symbol;
 mod symbol_slab;
 mod systematic_constants;
 mod util;
+#[cfg(cberner_raptorq_verif)]
+#[path = "/verif/hooks/lib_hooks.rs"]
+pub mod verif;
 
 pub use crate::base::EncodingPacket;
 pub use crate::base::ObjectTransmissionInformation;
